@@ -68,7 +68,8 @@ fn wild_opts() -> BoxedStrategy<(Opts, u8)> {
             for (f, v) in devs {
                 match f {
                     0 => {
-                        o.dict_size = DICTS[v as usize % DICTS.len()];
+                        // grid values, or an odd in-range size no container header can represent
+                        o.dict_size = if (v >> 16) % 3 == 0 { 4097 + (v >> 4) % 16_000 } else { DICTS[v as usize % DICTS.len()] };
                         if o.dict_size < 4096 {
                             out_of_range += 1;
                         }
@@ -152,10 +153,36 @@ impl Property for C19 {
     const ID: &'static str = "C19";
 
     fn families(_tier: Tier) -> u32 {
-        2
+        3
     }
 
     fn strategy(tier: Tier, family: u32) -> BoxedStrategy<Case> {
+        if family == 2 {
+            // in-range but unusual: an odd dictionary size and a repetition just inside it, so
+            // that a header which rounds the dictionary the wrong way makes the stream undecodable
+            return (4097u32..70_000, 0u32..300, any::<u64>(), 0u8..2, 0u8..2, writer_strategy())
+                .prop_map(|(dict, k, seed, mode, mf, writer)| {
+                    let mut opts = base_opts();
+                    opts.dict_size = dict;
+                    opts.mode = mode;
+                    opts.mf = mf;
+                    let d = dict - k.min(dict - 1);
+                    let writer = match writer {
+                        Writer::Xz { check, block, .. } => Writer::Xz { check, block, filters: vec![] },
+                        w => w,
+                    };
+                    Case {
+                        data: Data {
+                            segs: vec![Seg::Rand { len: d, seed }, Seg::CopyBack { len: 300, dist: d }, Seg::Text { len: 50, seed }],
+                        },
+                        opts,
+                        preset: None,
+                        writer,
+                        plan: Plan::All,
+                    }
+                })
+                .boxed();
+        }
         let data = if family == 0 {
             prop_oneof![1 => Just(Data::default()), 5 => data_strategy(2, 600)].boxed()
         } else {
@@ -194,7 +221,7 @@ impl Property for C19 {
     }
 
     fn floors(_tier: Tier) -> Vec<(&'static str, f64)> {
-        vec![("out_of_range", 45.0), ("rejected", 20.0), ("accepted_out_of_range", 3.0), ("xz", 15.0), ("lzma2", 10.0)]
+        vec![("out_of_range", 30.0), ("rejected", 15.0), ("accepted_out_of_range", 3.0), ("xz", 15.0), ("lzma2", 10.0)]
     }
 
     fn assumptions() -> Vec<&'static str> {
